@@ -64,10 +64,20 @@ ExpanderMap(args, i, num, m) ==
 ViewExpander(args) == ExpanderMap(args, 1, 1, {})
 
 (* ---------------- parser.py template_parameters (620-687), plain-text arguments --- *)
+\* Deviation "NodeViewDropsBlankOnlyLines": the text of an argument reaches the node through the
+\* tokenizer (token_iter), which skips every line that consists of blanks only
+\* (`if not line.strip(" \t"): continue`): the blanks of such a line are missing from the node's value.
+BlankOnly(l) == Len(l) > 0 /\ \A i \in 1..Len(l) : l[i] = "SP"
+RECURSIVE DropBL(_, _, _)
+DropBL(s, line, out) ==
+  IF Len(s) = 0 THEN out \o (IF BlankOnly(line) THEN <<>> ELSE line)
+  ELSE IF s[1] = "NL" THEN DropBL(Tail(s), <<>>, out \o (IF BlankOnly(line) THEN <<>> ELSE line) \o <<"NL">>)
+  ELSE DropBL(Tail(s), Append(line, s[1]), out)
+Tokenized(a) == IF "NodeViewDropsBlankOnlyLines" \in Dev THEN DropBL(a, <<>>, <<>>) ELSE a
 RECURSIVE NodeMap(_, _, _, _)
 NodeMap(args, i, unnamed, m) ==
   IF i > Len(args) THEN m
-  ELSE LET a == args[i] IN
+  ELSE LET a == Tokenized(args[i]) IN
        IF Len(a) = 0 THEN NodeMap(args, i + 1, unnamed + 1, Put(m, IntKey(unnamed + 1, <<>>)))
        ELSE IF HasEq(a)
        THEN LET name == Trim(Before(a))
